@@ -83,19 +83,41 @@ def make_pen(spec):
 
 
 # ---------------------------------------------------------------- recording
+# Everything attached to a solver is picklable (callable classes that find their recorder through a registry by tag),
+# so that solvers can be copied / saved / restored with the instrumentation in place; the solver classes are patched at
+# class level for the duration of a run (no source hooks).
+
+REG = {}          # tag -> Rec
+CURRENT = []      # stack of tags whose _Step is executing (for numpy.argsort)
+
 
 class Rec:
-    def __init__(self):
-        self.cost_calls = []      # (x tuple, y) every real call of the user's cost
-        self.cons_tab = []        # (x, result)
-        self.pen_tab = []
+    def __init__(self, tabs=None):
+        self.cost_calls = []      # (x, y, k) every real call of the user's cost by this solver
+        self.call_ctx = []        # per real cost call: which penalty / constraints / box / reducer were in force
+        self.tabs = tabs if tabs is not None else dict(cons=[], pen=[])   # shared per case: (x, result, k)
         self.obj_args = []        # arguments handed to the decorated objective (current Step)
         self.trials = []          # trial vectors produced by the strategy (current Step)
         self.deco_pop = None      # population right after a (re)decoration (current Step)
         self.cb = []              # callback arguments
         self.perms = []           # results of numpy.argsort during the current Step (Nelder-Mead)
-        self.call_ctx = []        # per real cost call: which penalty / constraints / box / reducer were in force
         self.nstep = 0            # number of _Step executions so far
+        self.state = dict(inplace=False)
+        self.solve_inputs = None  # list collecting per-Step inputs while Solve runs
+
+    def fork(self):
+        r = Rec(self.tabs)
+        r.cost_calls = list(self.cost_calls); r.call_ctx = list(self.call_ctx)
+        r.cb = list(self.cb); r.nstep = self.nstep; r.state = dict(self.state)
+        return r
+
+    @property
+    def cons_tab(self):
+        return self.tabs["cons"]
+
+    @property
+    def pen_tab(self):
+        return self.tabs["pen"]
 
 
 def _vec(x):
@@ -108,65 +130,201 @@ def _yv(y):
     return {"s": float(y)}
 
 
-def build_solver(kind, ndim, npop):
-    from mystic.solvers import DifferentialEvolutionSolver, DifferentialEvolutionSolver2, NelderMeadSimplexSolver
-    if kind == "DE":
-        return DifferentialEvolutionSolver(ndim, npop)
-    if kind == "DE2":
-        return DifferentialEvolutionSolver2(ndim, npop)
-    if kind == "NM":
-        return NelderMeadSimplexSolver(ndim)
-    raise ValueError(kind)
+class _Fn(object):
+    def __getstate__(self):
+        d = dict(self.__dict__); d["_f"] = None; return d
 
 
-def instrument(solver, rec):
-    """wrap solver._decorate_objective on the instance: record the population after decoration and the decorated objective's arguments"""
-    orig = solver._decorate_objective
-    def deco(cost, ExtraArgs=None):
-        wrapped = orig(cost, ExtraArgs)
-        rec.deco_pop = [_vec(p) for p in solver.population]
-        def recording(x):
+class CostFn(_Fn):
+    def __init__(self, spec, k, tag):
+        self.spec, self.k, self.tag, self._f = spec, k, tag, None
+    def __call__(self, x):
+        if self._f is None:
+            self._f = make_cost(self.spec)
+        y = self._f(x)
+        rec = REG.get(self.tag)
+        if rec is not None:
+            st = rec.state
+            rec.cost_calls.append((_vec(x), _yv(y), self.k))
+            rec.call_ctx.append(dict(pen_k=st.get("pen_k"), cons_k=st.get("cons_k"), box=st.get("box"),
+                                     red=st.get("red"), nstep=rec.nstep))
+        return y
+
+
+class ConsFn(_Fn):
+    def __init__(self, spec, k, tag):
+        self.spec, self.k, self.tag, self._f = spec, k, tag, None
+    def __call__(self, x):
+        if self._f is None:
+            self._f = make_cons(self.spec)
+        xin = _vec(x)
+        y = self._f(x)
+        rec = REG.get(self.tag)
+        if rec is not None:
+            rec.tabs["cons"].append((xin, _vec(y), self.k))
+        return y
+
+
+class PenFn(_Fn):
+    def __init__(self, spec, k, tag):
+        self.spec, self.k, self.tag, self._f = spec, k, tag, None
+    def __call__(self, x):
+        if self._f is None:
+            self._f = make_pen(self.spec)
+        y = self._f(x)
+        rec = REG.get(self.tag)
+        if rec is not None:
+            rec.tabs["pen"].append((_vec(x), float(y), self.k))
+        return y
+
+
+class ObjRec(object):
+    """recording wrapper around the decorated objective"""
+    def __init__(self, inner, tag):
+        self.inner, self.tag = inner, tag
+    def __call__(self, x):
+        rec = REG.get(self.tag)
+        if rec is not None:
             rec.obj_args.append(_vec(x))
-            return wrapped(x)
-        solver._cost = (recording, solver._cost[1], solver._cost[2])
-        return recording
-    solver._decorate_objective = deco
-    orig_step = solver._Step
-    def counted(*a, **k):
-        rec.nstep += 1
-        return orig_step(*a, **k)
-    solver._Step = counted
+        return self.inner(x)
 
 
-class StrategyPatch:
-    """replace mystic.strategy.<Name> by recording wrappers for the duration of a run"""
-    def __init__(self, rec):
-        self.rec = rec
+class CbFn(object):
+    def __init__(self, tag):
+        self.tag = tag
+    def __call__(self, x):
+        rec = REG.get(self.tag)
+        if rec is not None:
+            rec.cb.append(_vec(x))
+
+
+def _red_sum(a, b):
+    return a + b
+
+
+def _red_max(a, b):
+    return a if a >= b else b
+
+
+def solver_classes():
+    from mystic.solvers import DifferentialEvolutionSolver, DifferentialEvolutionSolver2, NelderMeadSimplexSolver, PowellDirectionalSolver
+    return dict(DE=DifferentialEvolutionSolver, DE2=DifferentialEvolutionSolver2, NM=NelderMeadSimplexSolver, POW=PowellDirectionalSolver)
+
+
+def build_solver(kind, ndim, npop):
+    cls = solver_classes()[kind]
+    return cls(ndim, npop) if kind in ("DE", "DE2") else cls(ndim)
+
+
+def retag(solver, tag):
+    """point the instrumentation carried by a copied / restored solver at its own recorder"""
+    solver._verif_tag = tag
+    c = getattr(solver, "_cost", None)
+    if c:
+        if isinstance(c[0], ObjRec):
+            c[0].tag = tag
+        if isinstance(c[1], CostFn):
+            c[1].tag = tag
+
+
+def step_inputs(solver, rec):
+    i = dict(trials=list(rec.trials), cands=list(rec.obj_args), deco=rec.deco_pop,
+             inplace=bool(rec.state.get("inplace") and not solver._useStrictRange),
+             perm=(rec.perms[-1] if rec.perms else None))
+    rec.trials, rec.obj_args, rec.deco_pop, rec.perms = [], [], None, []
+    return i
+
+
+class Instrumented:
+    """class-level patches, active for the duration of a run"""
     def __enter__(self):
         import mystic.strategy as st
-        self.saved = {}
-        rec = self.rec
+        self.saved = []
+        def patch(obj, name, new):
+            self.saved.append((obj, name, obj.__dict__[name] if isinstance(obj, type) else getattr(obj, name)))
+            setattr(obj, name, new)
         for name in STRATEGIES:
             f = getattr(st, name)
-            self.saved[name] = f
             def mk(f):
                 def w(inst, candidate):
                     f(inst, candidate)
-                    t = inst.trialSolution[candidate] if inst._map_solver else inst.trialSolution
-                    rec.trials.append(_vec(t))
+                    rec = REG.get(getattr(inst, "_verif_tag", None))
+                    if rec is not None:
+                        t = inst.trialSolution[candidate] if inst._map_solver else inst.trialSolution
+                        rec.trials.append(_vec(t))
                 w.__name__ = f.__name__
                 w.__doc__ = f.__doc__
                 return w
-            setattr(st, name, mk(f))
+            patch(st, name, mk(f))
+        for kind, cls in solver_classes().items():
+            if "_decorate_objective" in cls.__dict__:
+                orig = cls.__dict__["_decorate_objective"]
+                def mkd(orig):
+                    def deco(self, cost, ExtraArgs=None):
+                        wrapped = orig(self, cost, ExtraArgs)
+                        tag = getattr(self, "_verif_tag", None)
+                        rec = REG.get(tag)
+                        if rec is None:
+                            return wrapped
+                        rec.deco_pop = [_vec(p) for p in self.population]
+                        w = ObjRec(wrapped, tag)
+                        self._cost = (w, self._cost[1], self._cost[2])
+                        return w
+                    return deco
+                patch(cls, "_decorate_objective", mkd(orig))
+            orig_step = cls.__dict__["_Step"]
+            def mks(orig_step):
+                def counted(self, *a, **k):
+                    tag = getattr(self, "_verif_tag", None)
+                    rec = REG.get(tag)
+                    if rec is not None:
+                        rec.nstep += 1
+                    CURRENT.append(tag)
+                    try:
+                        return orig_step(self, *a, **k)
+                    finally:
+                        CURRENT.pop()
+                return counted
+            patch(cls, "_Step", mks(orig_step))
+        from mystic.abstract_solver import AbstractSolver
+        origS = AbstractSolver.__dict__["Step"]
+        def Step(self, *a, **k):
+            m = origS(self, *a, **k)
+            rec = REG.get(getattr(self, "_verif_tag", None))
+            if rec is not None and rec.solve_inputs is not None:
+                rec.solve_inputs.append(step_inputs(self, rec))
+            return m
+        patch(AbstractSolver, "Step", Step)
+        # the abstract _decorate_objective is used by Powell
+        origD = AbstractSolver.__dict__["_decorate_objective"]
+        def decoA(self, cost, ExtraArgs=None):
+            wrapped = origD(self, cost, ExtraArgs)
+            tag = getattr(self, "_verif_tag", None)
+            rec = REG.get(tag)
+            if rec is None:
+                return wrapped
+            rec.deco_pop = [_vec(p) for p in self.population]
+            w = ObjRec(wrapped, tag)
+            self._cost = (w, self._cost[1], self._cost[2])
+            return w
+        patch(AbstractSolver, "_decorate_objective", decoA)
+        _argsort = np.argsort
+        def argsort_rec(a, *args, **kw):
+            r = _argsort(a, *args, **kw)
+            if CURRENT:
+                rec = REG.get(CURRENT[-1])
+                if rec is not None:
+                    rec.perms.append([int(v) for v in r])
+            return r
+        patch(np, "argsort", argsort_rec)
         return self
+
     def __exit__(self, *a):
-        import mystic.strategy as st
-        for name, f in self.saved.items():
-            setattr(st, name, f)
+        for obj, name, old in reversed(self.saved):
+            setattr(obj, name, old)
 
 
 def snapshot(solver, rec, msg=None):
-    sm = solver._stepmon
     def fl(v):
         return float(v)
     em = solver._evalmon
@@ -229,6 +387,82 @@ def make_term(spec):
     raise ValueError(k)
 
 
+_TAGS = [0]
+
+
+def new_tag():
+    _TAGS[0] += 1
+    return "s%d" % _TAGS[0]
+
+
+def apply_op(solver, rec, op, k, case_tag):
+    """apply one API operation (index k in its script) to a real solver; returns (result dict, stop message)"""
+    from mystic.monitors import Monitor
+    o = op["op"]
+    res, msg = {}, None
+    tag = solver._verif_tag
+    st = rec.state
+    if o == "SetObjective":
+        st["cost_k"] = k
+        solver.SetObjective(CostFn(op["cost"], k, tag))
+    elif o == "SetPenalty":
+        solver.SetPenalty(PenFn(op["pen"], k, case_tag) if op["pen"]["kind"] != "none" else None)
+        st["pen_k"] = k
+    elif o == "SetConstraints":
+        ident = op["cons"]["kind"] == "ident" and not op["cons"].get("inplace")
+        solver.SetConstraints(None if ident else ConsFn(op["cons"], k, case_tag))
+        st["inplace"] = bool(op["cons"].get("inplace"))
+        st["cons_k"] = k
+    elif o == "SetStrictRanges":
+        st["box"] = None if op["lo"] is None else k
+        if op["lo"] is None:
+            solver.SetStrictRanges(False, False)
+        else:
+            kw = {}
+            if op.get("tight") is not None:
+                kw["tight"] = op["tight"]
+            if op.get("clip") is not None:
+                kw["clip"] = op["clip"]
+            solver.SetStrictRanges(list(op["lo"]), list(op["hi"]), **kw)
+    elif o == "SetReducer":
+        st["red"] = op["red"]
+        solver.SetReducer({None: None, "sum": _red_sum, "max": _red_max}[op["red"]])
+    elif o == "SetLimits":
+        solver.SetEvaluationLimits(op["g"], op["e"], new=op["new"])
+    elif o == "SetTermination":
+        solver.SetTermination(make_term(op["term"]))
+    elif o == "SetEvalMonitor":
+        solver.SetEvaluationMonitor(Monitor(), new=op["new"])
+    elif o == "SetStepMonitor":
+        solver.SetGenerationMonitor(Monitor(), new=op["new"])
+    elif o == "SetRandomInitialPoints":
+        solver.SetRandomInitialPoints(list(op["lo"]), list(op["hi"]))
+        res["pop"] = [_vec(p) for p in solver.population]
+    elif o == "SetInitialPoints":
+        solver.SetInitialPoints(list(op["x0"]))
+        res["pop"] = [_vec(p) for p in solver.population]
+    elif o == "Step":
+        kw = dict(callback=CbFn(tag)) if op.get("cb", False) else {}
+        msg = solver.Step(**kw)
+        res["inputs"] = [step_inputs(solver, rec)]
+    elif o == "Solve":
+        rec.solve_inputs = []
+        try:
+            kw = dict(callback=CbFn(tag)) if op.get("cb", False) else {}
+            solver.Solve(**kw)
+        finally:
+            res["inputs"] = rec.solve_inputs
+            rec.solve_inputs = None
+        msg = solver.Terminated(info=True) or None
+    elif o == "Finalize":
+        solver.Finalize()
+    elif o == "RequestExit":
+        solver._EARLYEXIT = True
+    else:
+        raise ValueError(o)
+    return res, msg
+
+
 def run_script(case):
     import io, contextlib, warnings
     with warnings.catch_warnings():
@@ -238,147 +472,35 @@ def run_script(case):
 
 
 def _run_script(case):
-    """case: dict(solver, ndim, npop, seed, strategy, ops=[...]).  Returns dict(trace=[snapshot per op], steps=[inputs], tables)."""
-    from mystic.monitors import Monitor
+    """case: dict(solver, ndim, npop, seed, strategy, ops=[...]).  Returns dict(trace=[snapshot per op], opres, calls, tables)."""
     kind = case["solver"]
-    rec = Rec()
     random.seed(case["seed"])
     np.random.seed(case["seed"] % (2 ** 31))
-    solver = build_solver(kind, case["ndim"], case.get("npop", 4))
-    instrument(solver, rec)
-    if kind in ("DE", "DE2"):
-        solver.strategy = case.get("strategy", "Best1Bin")
-        solver.probability = case.get("cross", 0.9)
-        solver.scale = case.get("scale", 0.8)
-    trace, opres = [], []
-    cb = lambda x: rec.cb.append(_vec(x))
-
-    state = dict(inplace=False)
-    def step_inputs():
-        i = dict(trials=list(rec.trials), cands=list(rec.obj_args), deco=rec.deco_pop,
-                 inplace=bool(state["inplace"] and not solver._useStrictRange),
-                 perm=(rec.perms[-1] if rec.perms else None))
-        rec.trials, rec.obj_args, rec.deco_pop, rec.perms = [], [], None, []
-        return i
-
-    def one_step(use_cb):
-        kw = dict(callback=cb) if use_cb else {}
-        m = solver.Step(**kw)
-        return m, step_inputs()
-
-    import numpy as _np
-    _argsort = _np.argsort
-    def argsort_rec(a, *args, **kw):
-        r = _argsort(a, *args, **kw)
-        if kind == "NM":
-            rec.perms.append([int(v) for v in r])
-        return r
-    _np.argsort = argsort_rec
+    tag = new_tag()
+    rec = REG[tag] = Rec()
+    case_tag = tag
     try:
-        return _run_ops(case, kind, rec, solver, trace, opres, cb, step_inputs, one_step, state)
+        solver = build_solver(kind, case["ndim"], case.get("npop", 4))
+        solver._verif_tag = tag
+        if kind in ("DE", "DE2"):
+            solver.strategy = case.get("strategy", "Best1Bin")
+            solver.probability = case.get("cross", 0.9)
+            solver.scale = case.get("scale", 0.8)
+        trace, opres = [], []
+        with Instrumented():
+            for k, op in enumerate(case["ops"]):
+                res, msg = apply_op(solver, rec, op, k, case_tag)
+                opres.append(res)
+                trace.append(snapshot(solver, rec, msg))
+        return pack(rec, trace, opres)
     finally:
-        _np.argsort = _argsort
+        REG.pop(tag, None)
 
 
-def _run_ops(case, kind, rec, solver, trace, opres, cb, step_inputs, one_step, state):
-    from mystic.monitors import Monitor
-    with StrategyPatch(rec):
-        for op in case["ops"]:
-            o = op["op"]
-            res = {}
-            msg = None
-            if o == "SetObjective":
-                f = make_cost(op["cost"])
-                state["cost_k"] = len(opres)
-                def cost(x, f=f, k=len(opres)):
-                    y = f(x)
-                    rec.cost_calls.append((_vec(x), _yv(y), k))
-                    rec.call_ctx.append(dict(pen_k=state.get("pen_k"), cons_k=state.get("cons_k"), box=state.get("box"),
-                                             red=state.get("red"), nstep=rec.nstep))
-                    return y
-                solver.SetObjective(cost)
-            elif o == "SetPenalty":
-                p = make_pen(op["pen"])
-                def pen(x, p=p, k=len(opres)):
-                    y = p(x)
-                    rec.pen_tab.append((_vec(x), float(y), k))
-                    return y
-                solver.SetPenalty(pen if op["pen"]["kind"] != "none" else None)
-                state["pen_k"] = len(opres)
-            elif o == "SetConstraints":
-                c = make_cons(op["cons"])
-                def cons(x, c=c, k=len(opres)):
-                    xin = _vec(x)
-                    y = c(x)
-                    rec.cons_tab.append((xin, _vec(y), k))
-                    return y
-                solver.SetConstraints(cons if op["cons"]["kind"] != "ident" or op["cons"].get("inplace") else None)
-                state["inplace"] = bool(op["cons"].get("inplace"))
-                state["cons_k"] = len(opres)
-            elif o == "SetStrictRanges":
-                state["box"] = None if op["lo"] is None else len(opres)
-                if op["lo"] is None:
-                    solver.SetStrictRanges(False, False)
-                else:
-                    kw = {}
-                    if op.get("tight") is not None:
-                        kw["tight"] = op["tight"]
-                    if op.get("clip") is not None:
-                        kw["clip"] = op["clip"]
-                    solver.SetStrictRanges(list(op["lo"]), list(op["hi"]), **kw)
-            elif o == "SetReducer":
-                state["red"] = op["red"]
-                if op["red"] is None:
-                    solver.SetReducer(None)
-                elif op["red"] == "sum":
-                    solver.SetReducer(lambda a, b: a + b)
-                elif op["red"] == "max":
-                    solver.SetReducer(lambda a, b: a if a >= b else b)
-            elif o == "SetLimits":
-                solver.SetEvaluationLimits(op["g"], op["e"], new=op["new"])
-            elif o == "SetTermination":
-                solver.SetTermination(make_term(op["term"]))
-            elif o == "SetEvalMonitor":
-                solver.SetEvaluationMonitor(Monitor(), new=op["new"])
-            elif o == "SetStepMonitor":
-                solver.SetGenerationMonitor(Monitor(), new=op["new"])
-            elif o == "SetRandomInitialPoints":
-                solver.SetRandomInitialPoints(list(op["lo"]), list(op["hi"]))
-                res["pop"] = [_vec(p) for p in solver.population]
-            elif o == "SetInitialPoints":
-                solver.SetInitialPoints(list(op["x0"]))
-                res["pop"] = [_vec(p) for p in solver.population]
-            elif o == "Step":
-                msg, i = one_step(op.get("cb", False))
-                res["inputs"] = [i]
-            elif o == "Solve":
-                ins = []
-                origStep = solver.Step
-                def stepper(*a, **k):
-                    m = origStep(*a, **k)
-                    ins.append(step_inputs())
-                    return m
-                solver.Step = stepper
-                try:
-                    kw = dict(callback=cb) if op.get("cb", False) else {}
-                    solver.Solve(**kw)
-                finally:
-                    del solver.Step
-                # decoration done by Solve's own bootstrap belongs to the first Step
-                res["inputs"] = ins
-                msg = solver.Terminated(info=True) or None
-            elif o == "Finalize":
-                solver.Finalize()
-            elif o == "RequestExit":
-                solver._EARLYEXIT = True
-            else:
-                raise ValueError(o)
-            # anything recorded outside a Step (none expected) is attached to the next one
-            opres.append(res)
-            trace.append(snapshot(solver, rec, msg))
+def pack(rec, trace, opres):
     return dict(trace=trace, opres=opres,
                 calls=[dict(x=x, y=y, k=k, **c) for (x, y, k), c in zip(rec.cost_calls, rec.call_ctx)],
-                cons_tab=[list(t) for t in rec.cons_tab], pen_tab=[list(t) for t in rec.pen_tab], cb=rec.cb)
+                cons_tab=[list(t) for t in rec.tabs["cons"]], pen_tab=[list(t) for t in rec.tabs["pen"]], cb=list(rec.cb))
 
 
 # ---------------------------------------------------------------- Gallina printing
